@@ -26,7 +26,7 @@ func init() {
 			"(b) payload in {tiny strings up to length 6 (9 thorough) over {a,b}, the reduced pieces} x every level -2..9 x call pattern in {W C, W F W C, F C, C, 1-byte writes} x {new writer, writer reused through Reset after a first stream} x gzip / zlib / zlib with a 20-byte and a 40000-byte dictionary x both directions; " +
 			"oracle: the standard library reads fastgo's output as the same payload and header it reads from its own output; fastgo reads the standard library's output as the standard library does; the trailer is CRC-32 || length mod 2^32 (gzip, little endian) / Adler-32 (zlib, big endian) recomputed by the harness; header errors agree; non-trivial = payload not empty",
 		Assumptions: []string{"compress/gzip and compress/zlib talking to themselves define the normal form"},
-		Quick:       TierSpec{MaxDev: -1, Shards: 4, ShardDepth: 3, BudgetS: 150},
+		Quick:       TierSpec{MaxDev: -1, Shards: 4, ShardDepth: 3, BudgetS: 600},
 		Thorough:    TierSpec{MaxDev: -1, Shards: 8, ShardDepth: 3, BudgetS: 1200},
 		Harness:     c06Harness,
 	})
